@@ -40,3 +40,19 @@ META = dict(
           "wall clock, the inputs and the start time; interfering histories enumerated; thorough adds two executors on interleaved interpreter threads",
     note="'other executors running at the same time' is covered at synchronisation-point granularity only; data races are invisible to this technique",
 )
+
+# appended by h-c14-c15: process-history independence of the interned error-capturing node types
+reg("C07",
+    name="C07_history_capture", src="harness/C07_history_capture.cpp",
+    anchor_files=["src/hgraph/runtime/node.cpp", "src/hgraph/runtime/node_error.cpp", "src/hgraph/types/graph_wiring.cpp"],
+    quick=dict(defs=dict(NCYC=3, NVAL=2), symx=dict(shards=4, **{"max-wall": 600})),
+    thorough=dict(defs=dict(NCYC=5, NVAL=3), symx=dict(shards=16, **{"max-wall": 1800})),
+    reach=["end", "a_before_b", "b_before_a", "b_only", "first_graph_run_before_second_built"],
+    bounds="two graphs with the same nodes and topology (src -> mid -> thrower -> sink, exception_time_series(thrower, options) -> error sink) that differ only "
+           "in their ErrorCaptureOptions: A = depth 1 / no values (default), B = depth 2 / captured input values; enumerated history {A then B, B then A, B only} "
+           "and whether the first graph is run before the second is built; the evaluation in which each thrower throws is symbolic in [0,NCYC); payloads "
+           "concrete (enumerated base value, a capturing node formats them); each graph's NodeError is compared with what its OWN options demand "
+           "(1 + depth node frames in activation_back_trace, 'value=' present iff capture_values), one error tick with the thrown message in the throwing cycle",
+    outside="error-capturing map_/try_except variants; more than two option sets; the exact text of the back trace beyond frame count and value presence; "
+            "'B alone in a fresh process' cannot be a second run of the same path (the registry is process-wide) - replaced by the expected content",
+    )
